@@ -63,7 +63,10 @@ def render(pristine, dirty, hexonly=None, ws_append=False, spaces_only=False):
                 b[lf_mid] = 0x0D
                 continue
             if hexonly is not None:
-                b[o] = ord("0") if b[o] != ord("0") else ord("1")
+                if r in ("first", "mid") and chr(b[o]) in "abcdef":
+                    b[o] = ord(chr(b[o]).upper())       # the same hex digit in the other case: another checksum string
+                else:
+                    b[o] = ord("0") if b[o] != ord("0") else ord("1")
             else:
                 b[o] = (b[o] ^ 0x01) if b[o] not in (0x20,) else 0x09     # space -> tab keeps the JSON value
     if hexonly is not None:
@@ -80,7 +83,9 @@ def render(pristine, dirty, hexonly=None, ws_append=False, spaces_only=False):
         b = b[:-1]
     if "append" in dirty:
         # appended bytes alternate between visible garbage and pure whitespace (an editor's final newline)
-        if ws_append == "cr":
+        if ws_append == "nul":
+            b += b"\0"             # a NUL byte (what an unused buffer tail holds)
+        elif ws_append == "cr":
             b += b"\r"             # a lone carriage return: whitespace to JSON, a different file to a checksum
         elif ws_append:
             b += b"\n"
@@ -146,7 +151,7 @@ def c17_history(bins, beh, hist, size, rng, sweep=False):
             return [j + k for k in (0, 63, 31, 16, 8, 40, 50)]
         def apply(file):
             p = {"src": src_path, "gen": gen_path, "lock": lock_path}[file]
-            data = render(pristine[file], dirty[file], hexpos() if file == "lock" else None, ws_append=(True, False, "cr")[beh % 3],
+            data = render(pristine[file], dirty[file], hexpos() if file == "lock" else None, ws_append=(True, False, "cr", "nul")[(beh + beh // 4) % 4],
                           spaces_only=(file == "src"))
             st = os.stat(p)
             with open(p, "wb") as f:
